@@ -124,6 +124,10 @@ Section Refine.
     destruct fuel as [|f]; [cbn in H; lia|].
     exists f. split; [lia|]. cbn [Parse.run]. rewrite S. reflexivity.
   Qed.
+  Lemma step_implicit stk st c v r :
+    stk = TNum v :: r -> p_cmd st = Some c ->
+    step stk st = exec c (Some c) (p_abs st) stk st.
+  Proof. intros -> H. unfold Parse.step. rewrite H. reflexivity. Qed.
   Lemma reaches_done stk st st' :
     reaches stk st [] st' -> run (length stk) stk st = Ok (rev (p_segs st')).
   Proof.
@@ -317,10 +321,10 @@ Section Refine.
                 = Ok (if ceqb N (s_cur ss) e' then []
                       else if eqb N (re r) (zero N) || eqb N (im r) (zero N) then [Line (s_cur ss) e']
                       else [Arc (s_cur ss) (mkc (nabs N (re r)) (nabs N (im r))) rot la sw e'])).
-    { unfold arc_or_line. rewrite !flag_of_fflag. destruct coinc_ok.
+    { unfold arc_or_line. rewrite !flag_of_fflag. destruct coinc_ok eqn:Ec.
       - destruct (ceqb N (s_cur ss) e'); [reflexivity|].
         destruct (eqb N (re r) (zero N) || eqb N (im r) (zero N)); reflexivity.
-      - destruct P as [P|P]; [discriminate|].
+      - destruct P as [P|P]; [congruence|].
         unfold arc_not_coincident, arc_end in P. cbn [aa_end] in P. fold e' in P.
         apply negb_true_iff in P. rewrite P.
         destruct (eqb N (re r) (zero N) || eqb N (im r) (zero N)); reflexivity. }
@@ -403,20 +407,22 @@ Section Refine.
         /\ p_segs st' = rev (snd (spec_args (sstep abs) ss args)) ++ p_segs st.
     Proof.
       induction args as [|a more IH]; intros st ss rest I Hc Ha P.
-      - exists st. cbn. repeat split; try assumption. apply reaches_refl.
+      - exists st. cbn. split; [apply reaches_refl|]. split; [exact I|]. split; [exact Hc|].
+        split; [exact Ha|reflexivity].
       - destruct P as [P1 P2].
-        destruct (G (stk' := flat_map ftoks more ++ rest) I P1) as (st1 & E & I1 & C1 & A1 & S1).
+        destruct (G abs st ss a (flat_map ftoks more ++ rest) I P1) as (st1 & E & I1 & C1 & A1 & S1).
         { right. right. congruence. }
         destruct (IH st1 _ rest I1 C1 A1 P2) as (st2 & R2 & I2 & C2 & A2 & S2).
         exists st2. rewrite spec_args_cons. cbn [fst snd].
-        split; [|repeat split; try assumption].
+        split; [|split; [exact I2|split; [exact C2|split; [exact A2|]]]].
         + eapply reaches_trans; [|exact R2].
           cbn [flat_map]. rewrite <- app_assoc.
           destruct (ftoks_num a) as (v & r & Ef).
           apply reaches_step.
           * rewrite Ef. discriminate.
-          * unfold Parse.step. rewrite Ef. cbn [app]. rewrite Hc, Ha. rewrite <- Hc.
-            rewrite <- Ef. exact E.
+          * rewrite (step_implicit _ st c v (r ++ flat_map ftoks more ++ rest));
+              [|rewrite Ef; reflexivity|exact Hc].
+            rewrite Ha, <- Hc. exact E.
           * rewrite Ef. cbn. rewrite !app_length. lia.
         + rewrite S2, S1, rev_app_distr, app_assoc. reflexivity.
     Qed.
@@ -432,10 +438,10 @@ Section Refine.
         /\ p_segs st' = rev (snd (spec_args (sstep abs) ss (a :: more))) ++ p_segs st.
     Proof.
       intros a more st ss rest I Hn [P1 P2].
-      destruct (G (stk' := flat_map ftoks more ++ rest) I P1 Hn) as (st1 & E & I1 & C1 & A1 & S1).
-      destruct (implicit_groups more rest I1 C1 A1 P2) as (st2 & R2 & I2 & C2 & A2 & S2).
+      destruct (G abs st ss a (flat_map ftoks more ++ rest) I P1 Hn) as (st1 & E & I1 & C1 & A1 & S1).
+      destruct (implicit_groups abs more st1 _ rest I1 C1 A1 P2) as (st2 & R2 & I2 & C2 & A2 & S2).
       exists st2. rewrite spec_args_cons. cbn [fst snd].
-      split; [|repeat split; try assumption].
+      split; [|split; [exact I2|split; [exact C2|]]].
       - eapply reaches_trans; [|exact R2].
         cbn [flat_map]. rewrite <- app_assoc.
         apply reaches_step.
@@ -450,11 +456,11 @@ Section Refine.
   Proof. unfold fpt. eauto. Qed.
   Lemma fnum_num (x : K) : exists v r, fnum x = TNum v :: r.
   Proof. unfold fnum. eauto. Qed.
-  Lemma fcurve_num a : exists v r, fcurve a = TNum v :: r.
+  Lemma fcurve_num (a : pt * pt * pt) : exists v r, fcurve a = TNum v :: r.
   Proof. unfold fcurve, fpt. cbn. eauto. Qed.
-  Lemma fpair_num a : exists v r, fpair a = TNum v :: r.
+  Lemma fpair_num (a : pt * pt) : exists v r, fpair a = TNum v :: r.
   Proof. unfold fpair, fpt. cbn. eauto. Qed.
-  Lemma farc_num a : exists v r, farc N a = TNum v :: r.
+  Lemma farc_num (a : arcargs K) : exists v r, farc N a = TNum v :: r.
   Proof. unfold farc, fpt. cbn. eauto. Qed.
 
   Lemma pre_all_no_pre {A} (f : sstate -> A -> sstate * list (seg K)) abs ss args :
@@ -483,12 +489,12 @@ Section Refine.
       /\ p_segs st' = rev (snd (spec_cmd N ss (MoveTo abs ps))) ++ p_segs st.
   Proof.
     intros Hcur W. destruct ps as [|p more]; [discriminate|].
-    cbn [flatten_cmd flat_map spec_cmd]. rewrite <- !app_assoc. cbn [app].
-    destruct (step_move abs st (stk' := flat_map fpt more ++ rest) p (p_cmd st) Hcur)
+    cbn [flatten_cmd flat_map spec_cmd app]. rewrite <- app_assoc.
+    destruct (step_move abs st ss p (flat_map fpt more ++ rest) (p_cmd st) Hcur)
       as (st1 & E & I1 & C1 & A1 & S1).
-    destruct (implicit_groups group_line fpt_num more rest I1 C1 A1
+    destruct (implicit_groups _ _ _ _ _ group_line fpt_num abs more st1 _ rest I1 C1 A1
                 (pre_all_no_pre _ _ _ _)) as (st2 & R2 & I2 & C2 & A2 & S2).
-    exists st2. repeat split; try assumption.
+    exists st2. split; [|split; [exact I2|split; [exact C2|]]].
     - eapply reaches_trans; [|exact R2]. apply reaches_step.
       + discriminate.
       + exact E.
